@@ -112,3 +112,45 @@ def repo_head():
         return head + ("+dirty" if dirty else "")
     except Exception:  # pragma: no cover
         return "unknown"
+
+
+def warm_pattern_caches(log=None):
+    """Pre-compile every extractor pattern into the *re module's* cache (and the
+    metadata patterns into the regex module's cache) in the pristine parent.
+
+    Forked children inherit these caches, so `re.compile(...)` inside eyecite's
+    lazy initialisers returns at once instead of re-running the pure-Python sre
+    parser under the trace hook in every run.  eyecite's own lazy caches
+    (TokenExtractor._compiled_regex, HyperscanTokenizer._db) stay cold: nothing
+    of eyecite is called, only pattern *strings* are read."""
+    import re
+    import time
+
+    t0 = time.monotonic()
+    from eyecite.tokenizers import EXTRACTORS
+
+    re._MAXCACHE = max(getattr(re, "_MAXCACHE", 512), 4 * len(EXTRACTORS) + 1024)
+    n = 0
+    for e in EXTRACTORS:
+        try:
+            re.compile(e.regex, flags=e.flags)
+            n += 1
+        except re.error:
+            pass
+    try:
+        import regex
+
+        from eyecite import regexes as R
+
+        for name in ("POST_FULL_CITATION_REGEX", "POST_SHORT_CITATION_REGEX",
+                     "POST_LAW_CITATION_REGEX", "POST_JOURNAL_CITATION_REGEX"):
+            regex.search(rf"^(?:{getattr(R, name)})", "", flags=regex.X)
+        for name in ("PRE_FULL_CITATION_REGEX", "SHORT_CITE_ANTECEDENT_REGEX",
+                     "SUPRA_ANTECEDENT_REGEX"):
+            regex.search(rf"(?:{getattr(R, name)})$", "", flags=regex.X)
+        regex.match(R.YEAR_REGEX, "", flags=regex.X)
+        regex.search(R.DEFENDANT_YEAR_REGEX, "")
+    except Exception:
+        pass
+    if log:
+        log(f"[harness] pattern caches warmed: {n} extractor patterns ({time.monotonic() - t0:.1f}s)")
